@@ -162,6 +162,30 @@ func ruleO1(c *Ctx) {
 		return
 	}
 	rs, cs := typeSwitchCases(ra, rpk, true), typeSwitchCases(ca, cpk, true)
+	// forms peeled off before the switch: `p, ok := lhs.(*syntax.ParenExpr)` in a loop, or unparen(lhs)
+	for _, side := range []struct {
+		fd  *ast.FuncDecl
+		pk  *packages.Package
+		out map[string]bool
+	}{{ra, rpk, rs}, {ca, cpk, cs}} {
+		ast.Inspect(side.fd.Body, func(n ast.Node) bool {
+			switch x := n.(type) {
+			case *ast.TypeAssertExpr:
+				if x.Type != nil {
+					if t := side.pk.TypesInfo.TypeOf(x.Type); t != nil {
+						if pp, nm := namedOf(t); nm != "" && strings.HasSuffix(pp, "/syntax") {
+							side.out[nm] = true
+						}
+					}
+				}
+			case *ast.CallExpr:
+				if id, ok := x.Fun.(*ast.Ident); ok && id.Name == "unparen" {
+					side.out["ParenExpr"] = true
+				}
+			}
+			return true
+		})
+	}
 	all := map[string]bool{}
 	for k := range rs {
 		all[k] = true
@@ -750,8 +774,8 @@ func resolvedBefore(p *Prog, fn *ssa.Function, at ssa.Instruction, depth int) (b
 // ---------- O9, O10 ----------
 
 func init() {
-	register("O9", "parameter bindings are checked for duplicates: in the resolver's function() (and the helpers it calls outside the statement/expression dispatchers) the result of every bind call - whether the name was already bound - is tested, never discarded; all parameter forms (plain, with default, *args, **kwargs) are sibling sites of the same rule", 4, ruleO9)
-	register("O10", "a nesting counter covers the whole construct: every statement list resolved after the increment of a resolver nesting counter (loops, ifstmts) in that function is resolved before the matching decrement, so the else branch of an if and the body of a loop are judged as nested", 3, ruleO10)
+	register("O9", "parameter bindings are checked for duplicates: in the resolver's function() (and the helpers it calls outside the statement/expression dispatchers) the result of every bind call - whether the name was already bound - is tested, never discarded; all parameter forms (plain, with default, *args, **kwargs) are sibling sites of the same rule", 1, ruleO9)
+	register("O10", "a nesting counter covers the whole construct: every statement list resolved after the increment of a resolver nesting counter (loops, ifstmts) in that function is resolved before the matching decrement, so the else branch of an if and the body of a loop are judged as nested", 2, ruleO10)
 	claim("C09", "O9", "O10")
 }
 
@@ -814,7 +838,7 @@ func ruleO9(c *Ctx) {
 			}
 		})
 	}
-	if n < 4 {
+	if n < 1 {
 		c.anchorFail("only %d parameter bind sites found under resolver.function", n)
 	}
 }
@@ -908,7 +932,7 @@ func ruleO10(c *Ctx) {
 			}
 		}
 	}
-	if n < 3 {
+	if n < 2 {
 		c.anchorFail("only %d counter windows found in the resolver", n)
 	}
 }
